@@ -47,7 +47,7 @@ pub enum Ev {
 #[derive(Clone, Debug)]
 pub enum ChooseMode { Newest, Oldest, Script }
 #[derive(Clone, Debug)]
-pub enum PrioMode { Static(Vec<i64>), Count, Script, Hash(u64), CountThen(bool) }
+pub enum PrioMode { Static(Vec<i64>), Count, Script, Hash(u64), CountThen(bool), Table(Vec<(u32, Option<R>, i64)>, i64) }
 
 #[derive(Clone, Debug, PartialEq)]
 pub enum Fault { None, ErrAt(usize), OutOfSetAt(usize) }
@@ -123,6 +123,13 @@ impl<'a, N: Name> DependencyProvider for Prov<'a, N> {
                 // number of candidate versions (most or fewest first), ties broken by the larger package number
                 let n = self.reg.pkgs.get(&pid).map(|m| m.keys().filter(|v| r.contains(v)).count()).unwrap_or(0) as i64;
                 (if *most_first { n } else { -n }) * 64 + pid as i64
+            }
+            PrioMode::Table(rows, default) => {
+                // range-dependent priorities: the first row whose package (u32::MAX = any package >= 100) and set match;
+                // ties broken by the smaller package number
+                let rank = rows.iter().find(|(q, set, _)| (*q == pid || (*q == u32::MAX && pid >= 100)) && set.as_ref().map_or(true, |s| s == r))
+                    .map(|(_, _, z)| *z).unwrap_or(*default);
+                rank * 1000 - pid as i64
             }
             PrioMode::Script => self.pick(&mut sh, 2) as i64,
             PrioMode::Hash(_) => {
@@ -599,6 +606,20 @@ pub fn family_registry(rng: &mut Rng) -> Registry {
     reg
 }
 
+/// wide scope: a conflict-rich core plus 33-38 independent filler packages required by every root version; with the
+/// fillers decided first the core is solved 35 levels above the root, so conflicts jump back over many levels
+pub fn wide_registry(rng: &mut Rng) -> (Registry, u32) {
+    let mut reg = match rng.below(3) { 0 => scenario_registry(rng), 1 => deep_registry(rng), _ => family_registry(rng) };
+    let nf = 33 + rng.below(6) as u32;
+    for f in 0..nf { reg.pkgs.entry(100 + f).or_default().insert(1, Some(vec![])); }
+    if let Some(vs) = reg.pkgs.get_mut(&0) {
+        for (_, d) in vs.iter_mut() {
+            if let Some(ds) = d { for f in 0..nf { ds.push((100 + f, R::full())); } }
+        }
+    }
+    (reg, nf)
+}
+
 /// corpus: registries kept from earlier findings and seeded changes (they run first, under every strategy below)
 pub fn corpus() -> Vec<(Registry, (u32, u32))> {
     fn reg(items: &[(u32, u32, Option<Vec<(u32, R)>>)]) -> Registry {
@@ -662,6 +683,26 @@ pub fn generate(out: &mut Out, rng: &mut Rng, thorough: bool, which: &str) {
             }
             v
         };
+        {
+            // a package first excluded at the root level, required again 35 levels up by a version that is then
+            // backtracked away over all those levels (range-dependent priorities)
+            let mut reg = Registry::default();
+            let mut root_deps = vec![(1u32, R::full()), (3u32, R::full())];
+            for f in 0..34u32 { root_deps.push((100 + f, R::full())); reg.pkgs.entry(100 + f).or_default().insert(1, Some(vec![])); }
+            reg.pkgs.entry(0).or_default().insert(1, Some(root_deps));
+            reg.pkgs.entry(1).or_default().insert(1, Some(vec![]));
+            reg.pkgs.entry(1).or_default().insert(2, Some(vec![(2, R::full()), (4, R::full())]));
+            reg.pkgs.entry(2).or_default().insert(1, Some(vec![]));
+            reg.pkgs.entry(2).or_default().insert(2, Some(vec![(3, R::singleton(2u32))]));
+            reg.pkgs.entry(3).or_default().insert(1, Some(vec![]));
+            reg.pkgs.entry(3).or_default().insert(2, Some(vec![(5, R::empty())]));
+            reg.pkgs.entry(4).or_default().insert(1, Some(vec![(3, R::singleton(2u32))]));
+            let table = PrioMode::Table(vec![(u32::MAX, None, 100), (1, None, 90), (2, Some(R::full()), 80),
+                                             (3, Some(R::singleton(2u32)), 70), (4, None, 50)], 10);
+            for choose in [ChooseMode::Newest, ChooseMode::Oldest] {
+                run_and_emit(out, &reg, (0, 1), &choose, &table, &[], false);
+            }
+        }
         for (reg, root) in corpus() {
             let np = reg.pkgs.keys().max().copied().unwrap_or(0) as usize + 2;
             for (choose, prio) in strategies(np, rng, true) { run_and_emit(out, &reg, root, &choose, &prio, &[], false); }
@@ -680,6 +721,21 @@ pub fn generate(out: &mut Out, rng: &mut Rng, thorough: bool, which: &str) {
             let reg = if i % 2 == 0 { family_registry(rng) } else { deep_registry(rng) };
             let np = reg.pkgs.keys().max().copied().unwrap_or(0) as usize + 2;
             for (choose, prio) in strategies(np, rng, false) { run_and_emit(out, &reg, (0, 0), &choose, &prio, &[], false); }
+        }
+        // wide scope: fillers first (static priorities) / fewest-versions first
+        let nwide = if thorough { 6000 / div } else { 300 };
+        for _ in 0..nwide {
+            let (reg, _nf) = wide_registry(rng);
+            let rv = *reg.pkgs.get(&0).and_then(|m| m.keys().next()).unwrap_or(&0);
+            let ncore = reg.pkgs.keys().filter(|p| **p < 100).max().copied().unwrap_or(0) as usize + 2;
+            for choose in [ChooseMode::Newest, ChooseMode::Oldest] {
+                for _ in 0..2 {
+                    let mut pm = perm(rng, ncore);
+                    pm.resize(200, 1000);           // every filler has a higher priority than the core
+                    run_and_emit(out, &reg, (0, rv), &choose, &PrioMode::Static(pm), &[], false);
+                }
+                run_and_emit(out, &reg, (0, rv), &choose, &PrioMode::CountThen(false), &[], false);
+            }
         }
         // tiny scope: all scripts per registry
         let ntiny = if thorough { 50625 / div } else { 1200 };
